@@ -405,6 +405,19 @@ def loop_with_replacement(rep, f, c, fn, b, H):
     rep.ob('C11-D3.loop-init', fn, good, 'total_read must start at valid_up_to (0 for non-borrowable encodings) and had_errors at false', site, None, c)
 
 
+def enc_slice_cursor(b, H):
+    """the loop-carried &str local handed to encode_from_utf8_to_vec as it is (the rest of the input kept as a shrinking slice)"""
+    for p in region_paths(b, H, env0=arg_aliases(b)):
+        ec_ = [e for e in p.calls() if e[1] == 'Encoder::encode_from_utf8_to_vec']
+        if len(ec_) == 1:
+            a1 = strip_ref(ec_[0][2][1])
+            while a1[0] in ('deref', 'ref'):
+                a1 = strip_ref(a1[1])
+            if a1[0] == 'init' and len(b.defs.get(a1[1], [])) >= 2:
+                return a1[1]
+    return None
+
+
 def encode_fn(rep, f, c):
     fn = 'Encoding::encode'
     b = f.body(fn)
@@ -448,14 +461,23 @@ def encode_fn(rep, f, c):
         elif p.end[0] == 'stop':
             ne = [e for e in p.calls() if e[1] == 'Encoding::new_encoder']
             ext = [e for e in p.calls() if (e[1] or '').endswith('::extend_from_slice')]
-            ix = index_from(ext[0][2][1]) if len(ext) == 1 else None
-            ok = len(ne) == 1 and strip_ref(ne[0][2][0]) == oe and v is not None and ix is not None and len(ix) == 3 and ix[1] == C(0) and ix[2] == v[2]
+            pre_nf = slice_nf(ext[0][2][1], ARG) if len(ext) == 1 else None
+            ok = len(ne) == 1 and strip_ref(ne[0][2][0]) == oe and v is not None and pre_nf == (C(0), v[2])
             tr = loop_roles(b, heads[0], 'Encoder::encode_from_utf8_to_vec')[0] if heads else None
-            ok &= tr is not None and p.env.get(tr) == v[2]
+            if tr is not None:
+                ok &= p.env.get(tr) == v[2]
+            else:
+                # the rest of the input kept as a shrinking slice: it starts as string[valid_up_to..]
+                sl = enc_slice_cursor(b, heads[0]) if heads else None
+                ok &= sl is not None and v is not None and p.env.get(sl) is not None and slice_nf(p.env.get(sl), ARG) == (v[2], None)
             rep.ob('C11-D3.encode-setup', fn, ok, 'conversion path does not use output_encoding.new_encoder(), copy bytes[..valid_up_to] and start at total_read = valid_up_to', at, None, c)
     rep.ob('C11-D1.cases', fn, nb >= 3, 'expected borrow paths for UTF-8 output, ISO-2022-JP and ASCII-compatible encodings (found %d)' % nb, site, {'borrow_paths': nb}, c)
     if heads and oe is not None:
         TRl = loop_roles(b, heads[0], 'Encoder::encode_from_utf8_to_vec')[0]
+        slice_mode = False
+        if TRl is None:
+            TRl = enc_slice_cursor(b, heads[0])
+            slice_mode = TRl is not None
         TR = ('init', TRl)
         ok = TRl is not None
         kinds = set()
@@ -480,7 +502,13 @@ def encode_fn(rep, f, c):
                 continue
             a = ec_[0][2]
             ix = index_from(a[1])
-            ok &= ix is not None and len(ix) == 2 and strip_ref(ix[0]) == ARG and ix[1] == TR and a[3] == ('c', 1, 'bool')
+            if slice_mode:
+                a1_ = strip_ref(a[1])
+                while a1_[0] in ('deref', 'ref'):
+                    a1_ = strip_ref(a1_[1])
+                ok &= a1_ == TR and a[3] == ('c', 1, 'bool')
+            else:
+                ok &= ix is not None and len(ix) == 2 and strip_ref(ix[0]) == ARG and ix[1] == TR and a[3] == ('c', 1, 'bool')
             res = ('call', ec_[0][1], a, ec_[0][3])
             kind_ = result_kind(f, p, tuple_field(res, 0))
             rv = p.env.get(0)
@@ -492,7 +520,10 @@ def encode_fn(rep, f, c):
                     flag_ok &= rv is not None and rv[0] == 'agg' and len(rv[2]) == 3 and or_of(p, rv[2][2], TE, he)
             elif kind_ == 'OutputFull':
                 kinds.add('grow')
-                ok &= p.end[0] == 'back' and sum_of(p.env.get(TRl, TR), TR, tuple_field(res, 1))
+                if slice_mode:
+                    ok &= p.end[0] == 'back' and slice_nf(p.env.get(TRl, TR), TR) == (tuple_field(res, 1), None)
+                else:
+                    ok &= p.end[0] == 'back' and sum_of(p.env.get(TRl, TR), TR, tuple_field(res, 1))
                 if TEl is not None:
                     flag_ok &= or_of(p, p.env.get(TEl, TE), TE, he)
         rep.ob('C11-D3.encode-loop', fn, ok and kinds == {'done', 'grow'}, 'encode loop is not: encode_from_utf8_to_vec(&string[total_read..], &mut vec, true) until InputEmpty, growing on OutputFull', site, {'cases': sorted(kinds)}, c)
